@@ -69,6 +69,20 @@ theorem absorb (n k : ℤ) (h : 0 ≤ n ∧ 0 ≤ k) : C n (k + 1) * (k + 1) = C
     have h2 : Nat.choose nn (kk + 1) = 0 := Nat.choose_eq_zero_of_lt (by omega)
     simp [h1, h2]
 
+/-- binomial coefficients increase on the left half of a row -/
+theorem choose_mono_left_half (n : ℕ) (j k : ℕ) (hjk : j ≤ k) (hk : k ≤ n / 2) :
+    Nat.choose n j ≤ Nat.choose n k := by
+  induction k with
+  | zero =>
+    have : j = 0 := by omega
+    subst this; exact le_refl _
+  | succ m ih =>
+    rcases Nat.eq_or_lt_of_le hjk with h | h
+    · subst h; exact le_refl _
+    · have hjm : j ≤ m := by omega
+      have hlt : m < n / 2 := by omega
+      exact le_trans (ih hjm (by omega)) (Nat.choose_le_succ_of_lt_half_left hlt)
+
 theorem C_ge_n (n k : ℤ) (h : 1 ≤ k ∧ k ≤ n - 1) : n ≤ C n k := by
   obtain ⟨kk, rfl⟩ := Int.eq_ofNat_of_zero_le (by omega : (0 : ℤ) ≤ k)
   obtain ⟨nn, rfl⟩ := Int.eq_ofNat_of_zero_le (by omega : (0 : ℤ) ≤ n)
@@ -80,18 +94,14 @@ theorem C_ge_n (n k : ℤ) (h : 1 ≤ k ∧ k ≤ n - 1) : n ≤ C n k := by
   have key : nn ≤ Nat.choose nn kk := by
     rcases Nat.lt_or_ge kk (nn / 2 + 1) with hlt | hge
     · -- k ≤ n/2 : monotone on the left half
-      have : Nat.choose nn 1 ≤ Nat.choose nn kk := by
-        apply Nat.choose_le_choose_of_le_half_left
-        exact h1
-        omega
+      have : Nat.choose nn 1 ≤ Nat.choose nn kk :=
+        choose_mono_left_half nn 1 kk h1 (by omega)
       simpa using this
     · -- k > n/2 : use symmetry
       have hk : kk ≤ nn := by omega
       rw [← Nat.choose_symm hk]
-      have : Nat.choose nn 1 ≤ Nat.choose nn (nn - kk) := by
-        apply Nat.choose_le_choose_of_le_half_left
-        omega
-        omega
+      have : Nat.choose nn 1 ≤ Nat.choose nn (nn - kk) :=
+        choose_mono_left_half nn 1 (nn - kk) (by omega) (by omega)
       simpa using this
   exact_mod_cast key
 
@@ -119,9 +129,8 @@ theorem mono_mul (n j k : ℤ) (h : 0 ≤ j ∧ j ≤ k ∧ 2 * k ≤ n) : C n j
   rw [C_nat, C_nat]
   have hjk' : jj ≤ kk := by exact_mod_cast hjk
   have hkn' : 2 * kk ≤ nn := by exact_mod_cast hkn
-  have hc : Nat.choose nn jj ≤ Nat.choose nn kk := by
-    apply Nat.choose_le_choose_of_le_half_left hjk'
-    omega
+  have hc : Nat.choose nn jj ≤ Nat.choose nn kk :=
+    choose_mono_left_half nn jj kk hjk' (by omega)
   have : Nat.choose nn jj * jj ≤ Nat.choose nn kk * kk := Nat.mul_le_mul hc hjk'
   exact_mod_cast this
 
